@@ -25,8 +25,20 @@ MUTANTS = [
          new="            pass"),
     # ---- C02
     dict(name='c02_no_restore', props=['C02'], file=FB,
-         old="        FileBuilder._create_dirs(self._old_cache.created_dirs())\n        self._backups.restore_all()",
+         old="        self._backups.restore_all()\n        FileBuilder._create_dirs(self._old_cache.created_dirs())",
          new="        FileBuilder._create_dirs(self._old_cache.created_dirs())"),
+    dict(name='c02_rollback_only_on_exception', props=['C02'], file=FB,
+         old="        except BaseException:\n            # This includes exceptions that are not subclasses of Exception,",
+         new="        except Exception:\n            # This includes exceptions that are not subclasses of Exception,"),
+    dict(name='c02_create_dirs_before_restore', props=['C02', 'C03'], file=FB,
+         old="        self._backups.restore_all()\n        FileBuilder._create_dirs(self._old_cache.created_dirs())",
+         new="        FileBuilder._create_dirs(self._old_cache.created_dirs())\n        self._backups.restore_all()"),
+    dict(name='c02_keep_old_created_dirs_in_rollback', props=['C02'], file=FB,
+         old="        dirs_to_remove.update(self._build_dirs.norm_cased_error_created_dirs())\n\n        # Remove every file we (re)built",
+         new="        dirs_to_remove.update(self._build_dirs.norm_cased_error_created_dirs())\n        for dir_ in self._old_cache.created_dirs():\n            dirs_to_remove.discard(os.path.normcase(dir_))\n\n        # Remove every file we (re)built"),
+    dict(name='c09_is_dir_three_steps', props=['C09'], file=SOE,
+         old="        return self._build_dirs.is_dir_norm_case(norm_cased_dir)\n",
+         new="        if self._build_dirs.is_removed_norm_case(norm_cased_dir):\n            return False\n        elif os.path.isdir(norm_cased_dir):\n            self._build_dirs.handle_norm_cased_dir_exists(norm_cased_dir)\n            return True\n        else:\n            return False\n"),
     dict(name='c02_no_backup_before_overwrite', props=['C02', 'C03'], file=FB,
          old="                if (os.path.isfile(filename) and\n                        self._backups.back_up_and_remove(filename)):\n                    logger.info(\n                        'Moved {:s} to a temporary directory, in preparation '\n                        'for rebuilding the file'.format(filename))",
          new="                if os.path.isfile(filename):\n                    os.remove(filename)"),
